@@ -12,6 +12,6 @@ Extraction "model.ml"
   run_op2 spec_op2 first_side
   srun subj0 arun asub0 size_ok brun bsubj0 abrun sops_of
   run_group_by first_keys group_trace announced flattened outer_term announced_first items_of term_of term_evs val_eqb
-  run_flatten downstream peak_ok subs_increasing completion_ok
+  run_flatten downstream peak_ok subs_increasing completion_ok silent_after_unsub
   run_timed raw_ok timed_ok prompt_case remaining
   run_async yields pendings.
